@@ -140,7 +140,7 @@ pub struct Gen<'t, 'd> {
     pub let_frames: Vec<(Frame, Ord)>,
     fresh: usize,
     rel_fresh: usize,
-    names: Names,
+    pub names: Names,
     /// this program uses relations whose columns the compiler does not know (`from t` unprojected)
     pub wild_prog: bool,
     /// number of `select !{..}` steps over a wildcard frame so far
